@@ -352,7 +352,9 @@ func (rb *Buffer) ReadFrom(r io.Reader) (n int64, err error) {
 			if m < 0 {
 				panic("RingBuffer.ReadFrom: reader returned negative count from Read")
 			}
-			rb.isEmpty = false
+			if m > 0 {
+				rb.isEmpty = false
+			}
 			rb.w = (rb.w + m) % rb.size
 			n += int64(m)
 			if err == io.EOF {
@@ -364,6 +366,9 @@ func (rb *Buffer) ReadFrom(r io.Reader) (n int64, err error) {
 			m, err = r.Read(rb.buf[:rb.r])
 			if m < 0 {
 				panic("RingBuffer.ReadFrom: reader returned negative count from Read")
+			}
+			if m > 0 {
+				rb.isEmpty = false
 			}
 			rb.w = (rb.w + m) % rb.size
 			n += int64(m)
@@ -378,7 +383,9 @@ func (rb *Buffer) ReadFrom(r io.Reader) (n int64, err error) {
 			if m < 0 {
 				panic("RingBuffer.ReadFrom: reader returned negative count from Read")
 			}
-			rb.isEmpty = false
+			if m > 0 {
+				rb.isEmpty = false
+			}
 			rb.w = (rb.w + m) % rb.size
 			n += int64(m)
 			if err == io.EOF {
